@@ -147,6 +147,56 @@ fn directed(index: u64, ctx: &mut Ctx) -> Outcome {
     Ok(())
 }
 
+/// One reliable message of more than 2^16 slices (the decoder allows up to 10^6) under a budget that admits it, no faults:
+/// after it was received, obtained and acknowledged both channels account nothing.
+fn huge_message(index: u64, ctx: &mut Ctx) -> Outcome {
+    let slices = [65_537usize, 65_536, 70_001][index as usize % 3];
+    let len = (slices - 1) * SLICE + 1;
+    let budget = 90_000_000usize;
+    ctx.op(&("huge_message", slices, len));
+    let kind = if index % 2 == 0 { Kind::Ordered } else { Kind::Unordered };
+    let cfg = WorldCfg {
+        bytes_per_tick: 200_000_000,
+        s2c: vec![Chan { id: 0, kind, max_mem: budget, resend_ms: 300 }],
+        c2s: vec![Chan { id: 0, kind, max_mem: budget, resend_ms: 300 }],
+        n_clients: 1,
+        id_scheme: 0,
+    };
+    let mut w = World::new(cfg, Oracles { memory: true, ..Default::default() });
+    w.prompt_drain = true;
+    let d = Dir { client: 0, to_client: true };
+    if !w.send(d, 0, len, true, 0)? {
+        return Err(Fail::new("directed_setup", format!("can_send_message refused {len} bytes under a budget of {budget}")));
+    }
+    for _ in 0..4 {
+        w.advance(50);
+        for dir in [d, d.rev()] {
+            for pid in w.flush(dir)? {
+                w.enqueue(pid, 0);
+            }
+            w.deliver_due(dir, None)?;
+            w.drain_all(dir)?;
+        }
+        mem_disconnects(&w, ctx)?;
+    }
+    let got = w.dirs[d.idx()].chans[&0].msgs[0].obtained;
+    if got != 1 {
+        return Err(Fail::new("huge_message_lost", format!("a message of {slices} slices was obtained {got} times after four loss-free ticks")));
+    }
+    let (Some(s), Some(r)) = (w.sender(d), w.receiver(d)) else { return Err(Fail::new("directed_setup", "connection missing")) };
+    let avail = s.channel_available_memory(0);
+    let recv_used = r.verif_receive_memory(0).map(|m| m.0).unwrap_or(0);
+    if avail != budget || recv_used != 0 {
+        return Err(Fail::new(
+            "huge_message_accounting",
+            format!("a message of {slices} slices ({len} bytes) was received, obtained and acknowledged without any fault, yet the send channel offers {avail} of {budget} bytes and the receive channel accounts {recv_used}"),
+        ));
+    }
+    ctx.label("huge_message");
+    ctx.nontrivial = true;
+    Ok(())
+}
+
 impl Property for C09 {
     fn id(&self) -> &'static str {
         "C09"
@@ -155,7 +205,7 @@ impl Property for C09 {
         "fault_enumeration"
     }
     fn rule(&self) -> String {
-        "A case = renet pair, all channel kinds, small budgets (3 kB - 200 kB) so limits are near, size mixes up to 5 slices, drain timing from 'after every delivery' (60% of cases) to 'rarely', per-packet faults biased to duplicates, histories up to 400 (quick) / 2500 (thorough) operations, then heal + quiescence. Oracles after every call: 0 <= used <= max on every send and receive channel (hooks; an underflow is an overflow panic); send-side used == sum of unacknowledged lengths; unreliable send channels offer their whole budget right after a flush; reliable receive accounting <= messages handed over and not yet obtained (sliced ones rounded up to whole slices) - a leak is visible at once; unreliable receive accounting right after an update and a drain <= reserved sizes of fragments that progressed within the last 3 s; quiescence: after heal, full drain and > 3 s every send channel offers exactly max and every receive channel accounts 0; no Send/ReceiveChannelError{MaxMemory} with a polite, promptly draining application, modulo the two listed open findings whose structural signature is computed (A: whole-slice reservation, B: ordered head-of-line buffering). Non-trivial: a duplicate slice arrived after its message was obtained, or an unreliable fragment expired, and the quiescence check was reached. Distinct = hash of the decoded operation trace.".into()
+        "A case = renet pair, all channel kinds, small budgets (3 kB - 200 kB) so limits are near, size mixes up to 5 slices, drain timing from 'after every delivery' (60% of cases) to 'rarely', per-packet faults biased to duplicates, histories up to 400 (quick) / 2500 (thorough) operations, then heal + quiescence. Oracles after every call: 0 <= used <= max on every send and receive channel (hooks; an underflow is an overflow panic); send-side used == sum of unacknowledged lengths; unreliable send channels offer their whole budget right after a flush; reliable receive accounting <= messages handed over and not yet obtained (sliced ones rounded up to whole slices) - a leak is visible at once; unreliable receive accounting right after an update and a drain <= reserved sizes of fragments that progressed within the last 3 s; quiescence: after heal, full drain and > 3 s every send channel offers exactly max and every receive channel accounts 0; no Send/ReceiveChannelError{MaxMemory} with a polite, promptly draining application, modulo the two listed open findings whose structural signature is computed (A: whole-slice reservation, B: ordered head-of-line buffering). Enumerated besides: the two witnesses of the open findings and one loss-free exchange of a single message of 65 537 slices (thorough: also 65 536 and 70 001) under a 90 MB budget, after which both channels must account nothing. Non-trivial: a duplicate slice arrived after its message was obtained, or an unreliable fragment expired, and the quiescence check was reached. Distinct = hash of the decoded operation trace.".into()
     }
     fn assumptions(&self) -> Vec<String> {
         vec![
@@ -170,10 +220,13 @@ impl Property for C09 {
     fn required_labels(&self) -> Vec<&'static str> {
         vec!["stale_dup_slice", "quiescence_checked", "prompt_drain", "unrel_fragment_expired", "unrel_bound_checked"]
     }
-    fn enums(&self, _tier: Tier) -> Vec<(&'static str, u64)> {
-        vec![("directed", 2)]
+    fn enums(&self, tier: Tier) -> Vec<(&'static str, u64)> {
+        vec![("directed", 2), ("huge_message", tier.pick(1, 3))]
     }
-    fn run_enum(&self, _name: &str, index: u64, ctx: &mut Ctx) -> Outcome {
+    fn run_enum(&self, name: &str, index: u64, ctx: &mut Ctx) -> Outcome {
+        if name == "huge_message" {
+            return huge_message(index, ctx);
+        }
         directed(index, ctx)
     }
     fn run_choices(&self, ctx: &mut Ctx) -> Outcome {
